@@ -30,6 +30,7 @@ package threadgroup
 //@   ensures [not-counted] old(closed(tg.closed)) ==> !called("WaitGroup).Add")
 //@   ensures [admitted] !old(closed(tg.closed)) ==> result1 == nil
 //@   ensures [counted-under-lock] !old(closed(tg.closed)) ==> called("WaitGroup).Add") && calledBefore("Lock", "WaitGroup).Add") && calledBefore("WaitGroup).Add", "Unlock")
+//@   ensures [lock-released] ncalls("Lock") == 1 && ncalls("Unlock") == 1
 //
 // Stop: closes the channel exactly once (never twice: that would panic), under the mutex, and
 // waits for the admitted threads outside the mutex (so that threads finishing can still call Add
@@ -40,6 +41,7 @@ package threadgroup
 //@   ensures [closed] closed(tg.closed)
 //@   ensures [once] old(closed(tg.closed)) ==> !called("chan.close")
 //@   ensures [waits-unlocked] called("Wait") && calledBefore("Unlock", "Wait")
+//@   ensures [lock-released] ncalls("Lock") == 1 && ncalls("Unlock") == 1
 //
 // AddContext: a rejected Add is reported and nothing else happens.
 //@ func (*ThreadGroup).WithContext
